@@ -112,6 +112,17 @@ def gen_cases(ctx):
                 if len(steps) == 2:
                     cases.append({"kind": "neoschizomers", "history": steps})
                     tw += 1
+    # (e) topology twins: the same class on a circular record whose structure only exists across the origin and on
+    #     a linear record with the very same letters (a SeqRecord whose topology annotation says linear)
+    for cno, p in enumerate(classes):
+        s0 = inst[p["name"]]
+        half = len(s0) // 2
+        rname = "wrap_%s" % p["name"]
+        inst[rname] = s0[half:] + s0[:half]
+        a = {"cls": spec[p["name"]], "rec": rname, "ce": 'kit_ce "%s"' % p["name"]}
+        b = dict(a, linear=True)
+        cases.append({"kind": "topology-twin", "history": [a, b]})
+        cases.append({"kind": "topology-twin", "history": [b, a]})
     # (b) random longer histories, with subclasses created at run time
     nh = 60 if ctx.quick else 600
     for hno in range(nh):
@@ -168,7 +179,13 @@ def _answers(history):
     from harness import implutil
     out = []
     for st in history:
-        ent = implutil.mk_entity({"cls": st["cls"], "seq": _INST[st["rec"]]}, st["rec"])
+        if st.get("linear"):
+            from Bio.Seq import Seq
+            from Bio.SeqRecord import SeqRecord
+            rec = SeqRecord(Seq(_INST[st["rec"]]), id="lin", name="lin", annotations={"topology": "linear"})
+            ent = implutil.get_class(st["cls"])(rec)
+        else:
+            ent = implutil.mk_entity({"cls": st["cls"], "seq": _INST[st["rec"]]}, st["rec"])
         t = implutil.typed_info(ent)
         out.append({"valid": t["valid"], "up": t["up"], "down": t["down"], "target": t["target"],
                     "exc": [t.get(k) for k in ("valid_exc", "up_exc", "down_exc", "target_exc")]})
@@ -255,6 +272,8 @@ def run(ctx):
             ctx.violations.append({"signature": "C06:is_valid-raised", "what": "is_valid raised %s" % o, "input": c})
         if len({st["ce"] for st in c["history"]}) > 1 and any(a["valid"] for a in o):
             ctx.nontriv([[st["ce"], st["rec"]] for st in c["history"]])
+        if any(st.get("linear") for st in c["history"]):
+            continue            # the machine types circular records only: decided by the same-query-first oracle
         terms.append(c_case(c, o))
         idx.append(i)
     ctx.sample({"case": cases[1], "impl": obs[1]})
